@@ -79,8 +79,10 @@ def behaviours(check, sites, names, forms, maximp, maxrefs, maxsec, label, timeo
     return out
 
 
-def render(beh):
+def render(beh, enc=None):
     """file text + expected {(start offset) -> (name, special?)}"""
+    if enc:
+        beh = _spell_beh(beh, enc)
     src = "<?php\n"
     expected = {}
     open_brace = False
@@ -136,6 +138,16 @@ def render(beh):
     return src, expected
 
 
+def _spell_beh(x, enc):
+    if isinstance(x, str):
+        return spell(x, enc)
+    if isinstance(x, list):
+        return [_spell_beh(y, enc) for y in x]
+    if isinstance(x, dict):
+        return {k: _spell_beh(v, enc) for k, v in x.items()}
+    return x
+
+
 def sample_sources(check, tier, n):
     """rendered files of matrix D (several namespace sections of both forms, imports, declarations, references with
     colliding short names) for checks that need resolver-heavy inputs (C11, C13)"""
@@ -152,10 +164,32 @@ def sample_sources(check, tier, n):
     return out[:n]
 
 
-def run_matrix(check, wp, behs, label):
+# the non-ASCII placeholders of NsResolver.tla's names, in the two usual source encodings
+ENCODINGS = {"latin1": {"U1": "\u00c9", "u1": "\u00e9", "U2": "\u00c8"}, "utf8": {"U1": "\u00c3\u0089", "u1": "\u00c3\u00a9", "U2": "\u00c3\u0088"}}
+
+
+def spell(text, enc):
+    for k, v in ENCODINGS[enc].items():
+        text = text.replace(k, v)
+    return text
+
+
+def run_matrix(check, wp, behs, label, encodings=None):
+    if encodings:
+        out = []
+        for enc in encodings:
+            out.append(_run_matrix(check, wp, behs, label + "/" + enc, enc))
+        return
+    _run_matrix(check, wp, behs, label, None)
+
+
+def _run_matrix(check, wp, behs, label, enc):
     tasks, exps = [], []
     for b in behs:
         src, exp = render(b)
+        if enc:
+            # placeholders are three bytes in the rendered text and one or two in the source: re-render with offsets recomputed
+            src, exp = render(b, enc)
         tasks.append({"op": "resolve", "src": src, "ver": "7.4"})
         exps.append(exp)
     res = wp.run(tasks)
@@ -226,6 +260,11 @@ def run(tier):
     behs = behaviours(check, a_sites + ["param_type"], ["f", "C", "Functionf", "functionf", "ConstC", "constC"], ["unq", "qual"], 1, 1, 1, "matrix F: kind words inside names")
     run_matrix(check, wp, behs, "F")
     check.cov["matrix_F_files"] = len(behs)
+    # matrix G (bytes >= 0x80 in names): PHP folds ASCII letters only; names that differ in a non-ASCII byte are different names,
+    # whatever the source encoding (Latin-1: one byte, not valid UTF-8; UTF-8: two bytes)
+    behs = behaviours(check, a_sites, ["U1c", "U1C", "u1c", "U2c"], ["unq", "qual"], 1, 1, 1, "matrix G: non-ASCII names")
+    run_matrix(check, wp, behs, "G", encodings=("latin1", "utf8"))
+    check.cov["matrix_G_files"] = 2 * len(behs)
     check.cov["traces_validated_against_impl"] = check.cov["evaluations"]
     check.assumptions += ["NsResolver.tla: my reading of PHP's name resolution rules; rendering templates per site in vf/c14.py",
                           "special names are compared case-insensitively (the property says 'left unqualified')"]
